@@ -187,6 +187,11 @@ def sec_constructors(chk):
     chk.sample(dict(constructions=n, kinds=sorted(kinds)[:8]))
 
 
+def _raw(x):
+    """AnyArray -> wrapped array; scalar results (0-d contractions) are immutable Python numbers: a fresh array"""
+    return x.val if hasattr(x, "val") else np.asarray(x)
+
+
 def _handles(f):
     """every array handle obtainable from a field"""
     v = f.val
@@ -195,18 +200,19 @@ def _handles(f):
     yield "asnumpy()", f.asnumpy()
     yield "val.asnumpy()", v.asnumpy()
     yield "np.asarray(val.val)", np.asarray(v.val)
-    yield "val[...]", v[...].val
-    yield "val[0:1]", v[0:1].val
-    yield "val.view()", v.view().val
-    yield "val.reshape(-1)", v.reshape(-1).val
-    yield "val.real", v.real.val
-    yield "val.T", v.T.val
-    yield "val.flatten()", v.flatten().val
-    yield "val.conj()", v.conj().val
-    yield "val_rw()", f.val_rw().val
+    yield "val[...]", _raw(v[...])
+    if v.ndim >= 1:
+        yield "val[0:1]", _raw(v[0:1])
+    yield "val.view()", _raw(v.view())
+    yield "val.reshape(-1)", _raw(v.reshape(-1))
+    yield "val.real", _raw(v.real)
+    yield "val.T", _raw(v.T)
+    yield "val.flatten()", _raw(v.flatten())
+    yield "val.conj()", _raw(v.conj())
+    yield "val_rw()", _raw(f.val_rw())
     yield "asnumpy_rw()", f.asnumpy_rw()
-    yield "val.copy()", v.copy().val
-    yield "val.at(-1)", v.at(-1).val
+    yield "val.copy()", _raw(v.copy())
+    yield "val.at(-1)", _raw(v.at(-1))
 
 
 def sec_handles(chk):
@@ -214,22 +220,34 @@ def sec_handles(chk):
     from nifty.cl.any_array import AnyArray
     for nm in ("val", "asnumpy", "view", "copy", "__getitem__", "real", "imag", "at"):
         chk.under_contract(getattr(AnyArray, nm) if not isinstance(getattr(AnyArray, nm), property) else getattr(AnyArray, nm).fget)
-    fails, n = [], 0
+    fails, fails_rw, n = [], [], 0
+    fields = []
     for shape in ((3,), (2, 2)):
         dom = ift.RGSpace(shape)
         for layout, dt, a in _arrays(shape):
             if dt in (np.int64, np.bool_):
                 continue
-            f = ift.Field(ift.DomainTuple.make(dom), a)
-            base = f.val._val
-            for name, h in _handles(f):
-                n += 1
-                if h.flags.writeable and np.shares_memory(h, base):
-                    fails.append(f"{name} (dtype={np.dtype(dt).name}, layout={layout}) is writeable and shares memory with the field")
+            fields.append((f"dtype={np.dtype(dt).name}, layout={layout}", ift.Field(ift.DomainTuple.make(dom), a)))
+    # scalar-domain fields (0-d arrays): Field.scalar, contraction results, scalar entries of a MultiField
+    f3 = ift.Field.from_raw(ift.RGSpace(3), np.array([1., 2., 3.]))
+    fields += [("Field.scalar", ift.Field.scalar(3.)), ("Field.scalar(complex)", ift.Field.scalar(1. + 2.j)),
+               ("sum() result", f3.sum()), ("vdot-field", ift.Field.scalar(f3.s_vdot(f3))),
+               ("MultiField scalar entry", ift.MultiField.from_dict({"s": ift.Field.scalar(2.), "v": f3})["s"])]
+    for what, f in fields:
+        base = f.val._val
+        for name, h in _handles(f):
+            n += 1
+            if h.flags.writeable and np.shares_memory(h, base):
+                fails.append(f"{name} ({what}) is writeable and shares memory with the field")
+            if name in ("val_rw()", "asnumpy_rw()", "val.copy()") and not (h.flags.writeable and not np.shares_memory(h, base)):
+                fails_rw.append(f"{name} ({what}): writeable={h.flags.writeable} shares_memory={np.shares_memory(h, base)}")
     uniq = sorted(set(x.split(" (")[0] for x in fails))
     chk.obligation("frame: every array handle obtained from a field is non-writeable or shares no memory with the field",
                    "discharged" if not fails else "refuted", backend="concrete-path(data-independent)",
                    detail=f"{len(fails)} of {n}; handles: {uniq}", model=dict(failing=fails[:6]))
+    chk.obligation("val_rw / asnumpy_rw / copy return a fresh writeable copy (writeable and sharing no memory with the field)",
+                   "discharged" if not fails_rw else "refuted", backend="concrete-path(data-independent)",
+                   detail="; ".join(fails_rw[:4]), model=dict(failing=fails_rw[:6]))
 
 
 def _try(fn):
